@@ -1,6 +1,7 @@
 """C14 - emitted diagnostics are complete, well-formed and match the totals."""
 import json
 import re
+from props import c15 as _c15
 
 from mirlib import AnchorMissing, path_matches, op_place, const_str
 from helpers import (try_edges, arm, aggregates, branches_on_field, calls_matching, edge_region, enum_switches, field_accesses, loop_of, must_pass,
@@ -359,3 +360,4 @@ def run(ctx):
     ctx.run_rule('C14.3b', 'T10', 'exit status and totals come from the emitted vector', c07.r_exit_status, prog)
     ctx.run_rule('C14.4', 'T1', 'writers of stderr / stdout are the frozen set', r_stream_writers, prog)
     ctx.run_rule('C14.5', 'T2', 'colour switch and no literal escape sequences', r_colour_switch, prog)
+    ctx.run_rule('C14.6', 'T10', 'the diagnostics emitted and counted are exactly what into_updated returned (nothing filtered in between)', _c15.r_emitted_is_updated, prog)
